@@ -69,3 +69,36 @@ Example C06_ex :
          ("A", [("id", OInt 3); ("a", ORef "J" 2); ("b", ORef "J" 2); ("c", OInt 1)]);
          ("J", [("id", OInt 5); ("n", OInt 100)])]].
 Proof. vm_compute. reflexivity. Qed.
+
+(* ---- which row a name denotes once the per-iteration names are gone (Globals.object_names) ---- *)
+
+(* A name that is the TABLE of one just_once row and the NICKNAME of another (legal; only a warning)
+   denotes the table's row in later iterations and continued runs, as in the iteration that made them. *)
+Theorem C06_persistent_table_entry_wins :
+  forall s n h,
+    lookup n (last_by_table s) = None -> lookup n (nick_objs s) = None ->
+    lookup n (p_tables s) = Some h -> object_name s n = Some (VRow h).
+Proof. exact persistent_table_entry_wins. Qed.
+Print Assumptions C06_persistent_table_entry_wins.
+
+Theorem C06_persistent_nickname_entry_last :
+  forall s n h,
+    lookup n (last_by_table s) = None -> lookup n (nick_objs s) = None -> lookup n (p_tables s) = None ->
+    lookup n (p_nicks s) = Some h -> object_name s n = Some (VRow h).
+Proof. exact persistent_nickname_entry_last. Qed.
+Print Assumptions C06_persistent_nickname_entry_last.
+
+(* non-vacuity, through the interpreter and a continuation: Region rows nicknamed `Office`, one Office
+   row; `reference: Office` denotes Office(1) in every iteration of both runs *)
+Example C06_nickname_spelled_like_a_just_once_table :
+  run_history (mkRecipe 3 []
+    [SObj (Tpl "Region" (Some "Office") (Some (FLitInt 2)) true [("f0", FLitInt 31)] []);
+     SObj (Tpl "Office" None None true [("f0", FLitInt 47)] []);
+     SObj (Tpl "Desk" None None false [("r", FRef "Office"); ("v", FFormula [PExpr (EAttr (EVar "Office") "f0")])] [])] [])
+    [2; 1]%nat None
+  = Ok [[("Region", [("id", OInt 1); ("f0", OInt 31)]); ("Region", [("id", OInt 2); ("f0", OInt 31)]);
+         ("Office", [("id", OInt 1); ("f0", OInt 47)]);
+         ("Desk", [("id", OInt 1); ("r", ORef "Office" 1); ("v", OInt 47)]);
+         ("Desk", [("id", OInt 2); ("r", ORef "Office" 1); ("v", OInt 47)])];
+        [("Desk", [("id", OInt 3); ("r", ORef "Office" 1); ("v", OInt 47)])]].
+Proof. vm_compute. reflexivity. Qed.
